@@ -138,8 +138,10 @@ def find_islands(im, bkg, rms,
                 continue
 
             island = PixelIsland()
+            # bound the island's pixels (not its non-zero values: a pixel value
+            # of exactly zero is still part of the island)
             island.calc_bounding_box(
-                np.array(np.nan_to_num(data_box), dtype=bool),
+                np.logical_not(island_mask),
                 offsets=[xmin, ymin]
             )
             island.set_mask(island_mask)
